@@ -259,8 +259,20 @@ def rule_R13_dedupe(ctx, rep, config="c-lib"):
                 if not pol:
                     pr = {"eq": "ne", "ne": "eq"}.get(pr, pr)
                 tests.append((pr, const_int(c.ops[1])))
-        if ("ne", 0) in tests and ("ne", 1) in tests:
-            rep.ok("R13-once", key, sample={"release": i.where(), "type_tests": tests})
+        sw_ok = False
+        for b in f.rblocks():
+            t = b.term
+            if t is None or t.op != "switch" or not f.dominates(b.name, i.block.name):
+                continue
+            sv = f.inst(strip_casts(f, t.d["cond"]))
+            if sv is None or sv.op != "load" or resolve_addr(f, sv.ops[0]).last_field() != "yaep_tree_node.type":
+                continue
+            cases = dict((v, tgt) for (v, tgt) in t.d["cases"])
+            if 0 in cases and 1 in cases and all(i.block.name not in f.reachable_from(cases[k_], avoid=(b.name,)) for k_ in (0, 1)) \
+                    and t.d["default"] not in (cases[0], cases[1]):
+                sw_ok = True
+        if (("ne", 0) in tests and ("ne", 1) in tests) or sw_ok:
+            rep.ok("R13-once", key, sample={"release": i.where(), "type_tests": tests or "switch without a path from the NIL / ERROR cases"})
         else:
             rep.violation("R13-once", key, "the single NIL/ERROR node can be released during cost pruning although make_parse examines (and releases) it afterwards",
                           where=i.where(), witness=[i.where(), "type tests controlling the release: %s" % tests])
@@ -635,6 +647,54 @@ def _collect_sites(f):
     return out
 
 
+def _var_of(f, op):
+    """identity of the node variable an operand is the current value of: ('alloca', id) for an address-taken local (the operand is a load of it),
+    ('ssa', id) otherwise"""
+    o = strip_casts(f, op)
+    i = f.inst(o)
+    if i is not None and i.op == "load":
+        pa = resolve_addr(f, i.ops[0])
+        if pa.root[0] == "alloca" and not [st for st in pa.steps if st[0] != "cast"]:
+            return ("alloca", pa.root[1])
+    if o.get("k") == "i":
+        return ("ssa", o["v"])
+    if o.get("k") == "a":
+        return ("arg", o["v"])
+    return None
+
+
+def _collect_events(p, f):
+    """[(instruction that dominates what it protects, variable key)]: appends of a node variable to tnodes_vlo, directly (under the parse_free test)
+    or through a helper of this file that appends its parameter"""
+    out = []
+    for (i, var) in _collect_sites(f):
+        g = i
+        for (c, pol) in _controlling_conditions(f, i.block.name):
+            lp = loaded_from(f, c.ops[0])
+            if lp is not None and lp.root == ("g", "parse_free") and strip_casts(f, c.ops[1]).get("k") == "null" and (c.d["pred"] == "ne") == pol:
+                g = c
+                break
+        out.append((g, ("alloca", var)))
+    for c_ in f.calls():
+        h = p.m.functions.get(c_.callee) if c_.callee else None
+        if h is None or h.decl or h.name == f.name or not c_.args:
+            continue
+        hs = _collect_sites(h)
+        if not hs:
+            continue
+        # the helper appends the local that holds its first parameter
+        okh = False
+        for (_, var) in hs:
+            sts = [s for s in h.all_insts() if s.op == "store" and resolve_addr(h, s.ops[1]).root == ("alloca", var)]
+            if len(sts) == 1 and strip_casts(h, sts[0].ops[0]) == {"k": "a", "v": 0}:
+                okh = True
+        if okh:
+            vk = _var_of(f, c_.args[0])
+            if vk is not None:
+                out.append((c_, vk))
+    return out
+
+
 def rule_collect(ctx, rep, config="c-lib"):
     rep.rule("R13-collect", "prune_to_minimal records every node it works on in the list of candidates for release (tnodes_vlo) before it rewrites the node -- marks its "
                             "cost, replaces a child or an alternative, relinks the alternative list: each store through a node variable is dominated by the parse_free "
@@ -643,38 +703,28 @@ def rule_collect(ctx, rep, config="c-lib"):
     p = ctx.prog(config)
     f = p.fn("prune_to_minimal")
     rep.cover(p, [f.name])
-    sites = _collect_sites(f)
-    if len(sites) < 3:
-        raise AnalysisBroken("R13-collect: %d appends to tnodes_vlo recognised in prune_to_minimal (3 confirmed by reading)" % len(sites))
-    # guard block of each append: the nearest dominating branch on parse_free != NULL
+    events = _collect_events(p, f)
+    if len(events) < 3:
+        raise AnalysisBroken("R13-collect: %d appends to tnodes_vlo recognised in prune_to_minimal (3 confirmed by reading)" % len(events))
     guards = {}
-    for (i, var) in sites:
-        for (c, pol) in _controlling_conditions(f, i.block.name):
-            lp = loaded_from(f, c.ops[0])
-            if lp is not None and lp.root == ("g", "parse_free") and strip_casts(f, c.ops[1]).get("k") == "null" and (c.d["pred"] == "ne") == pol:
-                guards.setdefault(var, []).append(c)
-                break
-        else:
-            guards.setdefault(var, []).append(i)     # unguarded append
+    for (g_, vk) in events:
+        guards.setdefault(vk, []).append(g_)
     n = 0
     for s in f.all_insts():
         if s.op != "store":
             continue
         pa = resolve_addr(f, s.ops[1])
-        if pa.root[0] != "val" or not pa.fields():
+        if pa.root[0] not in ("val", "a") or not pa.fields():
             continue
         fld = pa.last_field() or ""
         if "yaep_tree_node" not in "".join(st[1] for st in pa.steps if st[0] == "f") and not fld.startswith(("yaep_anode.", "yaep_alt.")):
             continue
-        holder = f.inst(strip_casts(f, pa.root[1]))
-        if holder is None or holder.op != "load":
+        var = ("arg", pa.root[1]) if pa.root[0] == "a" else _var_of(f, pa.root[1])
+        if var is None:
             continue
-        hp = resolve_addr(f, holder.ops[0])
-        if hp.root[0] != "alloca" or hp.steps:
-            continue
-        var = hp.root[1]
         n += 1
-        vname = (f.insts[var].d.get("var") if var in f.insts else None) or "?"
+        vi_ = f.insts.get(var[1]) if var[0] in ("alloca", "ssa") else None
+        vname = (vi_.d.get("var") if vi_ is not None else None) or ("node" if var[0] == "arg" else "?")
         key = "prune_to_minimal/%s.%s#%d" % (vname, fld.split(".")[-1], n)
         gs = guards.get(var, [])
         if any(f.inst_dominates(g, s) for g in gs):
@@ -744,25 +794,22 @@ def rule_alt_relink(ctx, rep, config="c-lib"):
             L = L_ if (L is None or len(L_["body"]) < len(L["body"])) else L
     if L is None:
         raise AnalysisBroken("R13-relink: the stores to alt.next are not in one loop")
-    alt_allocas = set()
+    alt_vars = set()
     for s in stores:
         pa = resolve_addr(f, s.ops[1])
-        h = f.inst(strip_casts(f, pa.root[1])) if pa.root[0] == "val" else None
-        if h is not None and h.op == "load":
-            hp = resolve_addr(f, h.ops[0])
-            if hp.root[0] == "alloca":
-                alt_allocas.add(hp.root[1])
+        if pa.root[0] == "val":
+            vk = _var_of(f, pa.root[1])
+            if vk is not None:
+                alt_vars.add(vk)
     acc = set()
     for bn in L["body"]:
         for ph in f.bmap[bn].insts:
             if ph.op != "phi":
                 continue
             for (v, _) in ph.d["incoming"]:
-                vi = f.inst(strip_casts(f, v))
-                if vi is not None and vi.op == "load":
-                    vp = resolve_addr(f, vi.ops[0])
-                    if vp.root[0] == "alloca" and vp.root[1] in alt_allocas and not vp.steps:
-                        acc.add(ph.id)
+                vk = _var_of(f, v)
+                if vk is not None and vk in alt_vars and ("ssa", ph.id) not in alt_vars:
+                    acc.add(ph.id)
     # closure over phis of phis
     changed = True
     while changed:
